@@ -30,13 +30,14 @@ def shards(tier):
     return [{'examples': per, 'i': i} for i in range(n)]
 
 
-def mk_type(kind, exprs, tags=()):
-    """Constrained pyasn1 type derived step by step: exprs = list of constraint trees (a derivation chain)."""
+def mk_type(kind, exprs, tags=(), bare=False):
+    """Constrained pyasn1 type derived step by step: exprs = list of constraint trees (a derivation chain).
+    bare: the constraint object is handed to subtype() as it is (the common spelling), otherwise wrapped in an intersection."""
     T = ir.mk(kind)
     obj = build.schema(T)
     chain = [obj]
     for i, c in enumerate(exprs):
-        kw = {'subtypeSpec': constraint.ConstraintsIntersection(cons.build(c, kind))}
+        kw = {'subtypeSpec': cons.build(c, kind) if bare else constraint.ConstraintsIntersection(cons.build(c, kind))}
         if i < len(tags) and tags[i] is not None:
             kw['explicitTag'] = ptag.Tag(ptag.tagClassContext, ptag.tagFormatConstructed, tags[i])
         obj = obj.subtype(**kw)
@@ -88,7 +89,7 @@ def run_case(case):
     if case['what'] == 'scalar':
         exprs = case['exprs']
         try:
-            chain = mk_type(kind, exprs, case.get('tags', ()))
+            chain = mk_type(kind, exprs, case.get('tags', ()), case.get('bare', False))
         except error.PyAsn1Error as e:
             F('build', 'raises', 'building the constrained type raised %s: %s | %s' % (harness.exc_sig(e), str(e)[:100], ir.jdump(exprs)[:200]), harness.exc_sig(e))
             return fails
@@ -114,6 +115,17 @@ def run_case(case):
             if got != want:
                 F('denotation', 'admitted' if got else 'rejected', '%s(%r) %s, denotation says %s | %s' % (
                     kind, x, 'admitted' if got else 'rejected', 'in' if want else 'out', desc))
+            # the same initialiser handed over as a value object of the unconstrained base type
+            try:
+                T.clone(chain[0].clone(py(kind, x)))
+                got2 = True
+            except error.ValueConstraintError:
+                got2 = False
+            except error.PyAsn1Error:
+                got2 = got
+            if got2 != got:
+                F('denotation', 'object-initialiser', '%s(<unconstrained %s object %r>) %s but %s(%r) %s | %s' % (
+                    kind, kind, x, 'admitted' if got2 else 'rejected', kind, x, 'admitted' if got else 'rejected', desc))
             # (d) subset along the chain: child admits => every ancestor admits
             if got:
                 for depth_, anc in enumerate(chain[1:-1]):
@@ -221,7 +233,8 @@ def run_case(case):
         for present in case['subsets']:
             o = sch.clone()
             o.clear()
-            vals = {'a': 1, 'b': b'x', 'c': True}
+            # payloads whose truth value is False are as present as any other
+            vals = {'a': 0, 'b': b'', 'c': False} if case.get('payload') == 'falsy' else {'a': 1, 'b': b'x', 'c': True}
             for nm in present:
                 o[nm] = vals[nm]
             want = cons.admits(c, kind, {nm: vals[nm] for nm in present})
@@ -264,6 +277,11 @@ def operations(kind, operands):
                     ('%%(%d)' % k, lambda o, k=k: o % k), ('&(%d)' % k, lambda o, k=k: o & k), ('|(%d)' % k, lambda o, k=k: o | k),
                     ('^(%d)' % k, lambda o, k=k: o ^ k), ('<<(%d)' % (abs(k) % 9), lambda o, k=k: o << (abs(k) % 9)),
                     ('>>(%d)' % (abs(k) % 9), lambda o, k=k: o >> (abs(k) % 9)), ('**(%d)' % (abs(k) % 4), lambda o, k=k: o ** (abs(k) % 4))]
+        for k in (a, b, 0):
+            ko = univ.Integer(k)
+            ops += [('clone(obj %d)' % k, lambda o, ko=ko: o.clone(ko)), ('subtype(obj %d)' % k, lambda o, ko=ko: o.subtype(ko)),
+                    ('+(obj %d)' % k, lambda o, ko=ko: o + ko), ('-(obj %d)' % k, lambda o, ko=ko: o - ko),
+                    ('*(obj %d)' % k, lambda o, ko=ko: o * ko), ('|(obj %d)' % k, lambda o, ko=ko: o | ko)]
         ops += [('neg', lambda o: -o), ('pos', lambda o: +o), ('abs', lambda o: abs(o)), ('invert', lambda o: ~o),
                 ('round', lambda o: round(o)), ('divmod', lambda o: divmod(o, 3)[0])]
         return ops
@@ -271,7 +289,9 @@ def operations(kind, operands):
         x = bytes([abs(a) % 256])
         return [('+', lambda o: o + x), ('radd', lambda o: x + o), ('*2', lambda o: o * 2), ('*0', lambda o: o * 0), ('rmul', lambda o: 3 * o),
                 ('slice[1:]', lambda o: o[1:]), ('slice[:1]', lambda o: o[:1]), ('slice[:0]', lambda o: o[:0]), ('slice[::2]', lambda o: o[::2]),
-                ('clone', lambda o: o.clone(x * 3)), ('subtype', lambda o: o.subtype(x * 5)), ('clone-empty', lambda o: o.clone(b''))]
+                ('clone', lambda o: o.clone(x * 3)), ('subtype', lambda o: o.subtype(x * 5)), ('clone-empty', lambda o: o.clone(b'')),
+                ('+obj', lambda o: o + univ.OctetString(x)), ('clone-obj', lambda o: o.clone(univ.OctetString(x * 4))),
+                ('subtype-obj', lambda o: o.subtype(univ.OctetString(b'')))]
     if kind == 'BITSTRING':
         return [('+', lambda o: o + o), ('<<1', lambda o: o << 1), ('<<9', lambda o: o << 9), ('>>1', lambda o: o >> 1),
                 ('slice[1:]', lambda o: o[1:]), ('slice[:1]', lambda o: o[:1]), ('slice[:0]', lambda o: o[:0]),
@@ -279,7 +299,8 @@ def operations(kind, operands):
     x = 'z#'[abs(a) % 2]
     return [('+', lambda o: o + x), ('radd', lambda o: x + o), ('*2', lambda o: o * 2), ('*0', lambda o: o * 0), ('rmul', lambda o: 2 * o),
             ('slice[1:]', lambda o: o[1:]), ('slice[:1]', lambda o: o[:1]), ('slice[:0]', lambda o: o[:0]),
-            ('clone', lambda o: o.clone(x * 3)), ('subtype', lambda o: o.subtype(x * 2)), ('clone-empty', lambda o: o.clone(''))]
+            ('clone', lambda o: o.clone(x * 3)), ('subtype', lambda o: o.subtype(x * 2)), ('clone-empty', lambda o: o.clone('')),
+            ('+obj', lambda o: o + build.schema(ir.mk(kind)).clone(x)), ('clone-obj', lambda o: o.clone(build.schema(ir.mk(kind)).clone(x * 4)))]
 
 
 def twin(c, kind):
@@ -314,6 +335,8 @@ def run_shard(desc, seed, tier, col):
                 tw = twin(exprs[0], kind)
                 if tw is not None:
                     exprs[1] = tw          # same parameters as the previous link, another constraint class
+            elif n >= 2 and exprs[0]['c'] == 'or' and d.pct(50):
+                exprs[1] = d.pick(exprs[0]['ops'])      # narrowing to one alternative of the parent's union
             tags = [d.int(0, 5) if d.pct(25) else None for _ in range(n)]
             cands = []
             for c in exprs:
@@ -330,7 +353,8 @@ def run_shard(desc, seed, tier, col):
                 cands += [(0, 0)]
             else:
                 cands += ['']
-            return {'what': 'scalar', 'kind': kind, 'exprs': exprs, 'tags': tags, 'cands': cands, 'operands': [d.int(-300, 300), d.pick([2, 7, 128, -129])]}
+            return {'what': 'scalar', 'kind': kind, 'exprs': exprs, 'tags': tags, 'cands': cands, 'operands': [d.int(-300, 300), d.pick([2, 7, 128, -129])],
+                    'bare': d.pct(50)}
         if r < 9:
             kind = d.pick(['SEQUENCEOF', 'SETOF'])
             c = cons.draw_expr(d, kind, d.pick([1, 2, 3]))
@@ -346,7 +370,7 @@ def run_shard(desc, seed, tier, col):
                 return leaf()
             return {'c': d.pick(['and', 'or', 'except']), 'ops': [expr(depth - 1) for _ in range(d.int(1, 2))]}
         subsets = [[], ['a'], ['b'], ['c'], ['a', 'b'], ['a', 'c'], ['b', 'c'], ['a', 'b', 'c']]
-        return {'what': 'record', 'kind': kind, 'expr': expr(3), 'subsets': subsets}
+        return {'what': 'record', 'kind': kind, 'expr': expr(3), 'subsets': subsets, 'payload': d.pick(['truthy', 'falsy'])}
 
     def body(case):
         if case['what'] == 'scalar':
